@@ -353,6 +353,17 @@ def run(prog, rep, tier, repo):
             rep.ok('value-oblivious', key, 'no comparison of element values')
     rep.floor('value-oblivious', 4, 'bootstrap, jackknife, shuffle, shuffle_two')
 
+    # ---------------------------------------------------------------- D4' total on non-empty data: no witness (every length >= 1, equal lengths
+    # for the paired shuffle) on which a resampler cannot return -- e.g. an index generator whose constructor rejects the one-point range 0..=0
+    from ..precond import check_returns
+
+    def dom(env, at):
+        lens = [env[n] for n in env if tag(at[n][1]) == 'len']
+        return all(v >= 1 for v in lens) and len(set(lens)) <= 1
+    entry = [RS + name for name in ('bootstrap', 'jackknife', 'shuffle', 'shuffle_two') if RS + name in pdb.bodies]
+    check_returns(prog, rep, 'total', entry, domain=dom, what='for non-empty data')
+    rep.floor('total', 4, 'bootstrap, jackknife, shuffle, shuffle_two')
+
     # ---------------------------------------------------------------- D5
     check_rng_precondition(prog, rep)
     rep.floor('precondition', 1, 'DiscreteUniform::sample')
